@@ -304,15 +304,17 @@ theorem completionLoop_mono (fuel i : Nat) (r : Run) : Mono r.w (completionLoop 
         · exact (cancelBox_mono _ _ _).trans (ih _ _)
       · exact Mono.refl _
 
+theorem completionEnter_mono (r : Run) (v : Val) : Mono r.w (completionEnter r v).w := by
+  unfold completionEnter
+  split
+  · exact (handleResult_mono r.w _ _).trans (Mono.of_eq rfl (fun _ h => h) (fun _ h => h) rfl)
+  · exact Mono.of_eq rfl (fun _ h => h) (fun _ h => h) rfl
+
 theorem processCompletion_mono (r : Run) (v : Val) : Mono r.w (processCompletion r v).1.w := by
   unfold processCompletion
-  dsimp only
   split
   · exact Mono.refl _
-  · refine Mono.trans ?_ (completionLoop_mono _ _ _)
-    split
-    · exact (handleResult_mono r.w _ _).trans (Mono.of_eq rfl (fun _ h => h) (fun _ h => h) rfl)
-    · exact Mono.of_eq rfl (fun _ h => h) (fun _ h => h) rfl
+  · exact (completionEnter_mono r v).trans (completionLoop_mono _ _ _)
 
 theorem bubbleErr_mono (w : Worker) (t : Task) (out : List Msg) (evs : List Ev) (cls : Nat)
     (isRt : Bool) : Mono w (bubbleErr w t out evs cls isRt).w := by
